@@ -20,12 +20,15 @@ pub enum Op {
 pub struct C01Case {
     pub lang: &'static str,
     pub via_registry: bool,
+    /// registry: do not destroy the store at the end (it dies with its thread);
+    /// Store API: build the store on another thread and hand it over before the first search
+    pub variant: bool,
     pub ops: Vec<Op>,
 }
 
 fn gen_long_word(src: &mut Source, lang: &str) -> String {
     let plain = plain_letters(lang);
-    let n = *src.pick(&[15usize, 19, 20, 21, 22, 23, 31, 34, 50, 77, 105]) + src.below(3);
+    let n = *src.pick(&[15usize, 19, 20, 21, 22, 23, 31, 34, 50, 63, 64, 65, 77, 105]) + src.below(3);
     if src.chance(1, 3) {
         // an unbroken run of letters of another script (multi-byte encodings)
         let n = *src.pick(&[8usize, 16, 17, 21, 22, 25, 32, 33, 40, 64, 65]) + src.below(2);
@@ -38,6 +41,7 @@ fn gen_long_word(src: &mut Source, lang: &str) -> String {
 pub fn decode(src: &mut Source) -> Box<dyn Case> {
     let lang = gen_lang(src);
     let via_registry = src.chance(1, 4);
+    let variant = src.chance(1, 4);
     let flavor = if src.chance(2, 3) { Flavor::Adversarial } else { Flavor::Clean };
     let vocab = gen_vocab(src, lang, flavor, 2, 6);
     let mut ops: Vec<Op> = Vec::new();
@@ -99,8 +103,12 @@ pub fn decode(src: &mut Source) -> Box<dyn Case> {
         let q = gen_query(src, lang, &titles, &vocab, flavor);
         ops.push(Op::Search(q));
     }
-    Box::new(C01Case { lang, via_registry, ops })
+    Box::new(C01Case { lang, via_registry, variant, ops })
 }
+
+/// `Store` holds only owned data behind `RefCell`s; handing a whole store to another thread is
+/// what a loader/worker split does (`Store` is `Send`: the compiler checks it here).
+struct SendStore(lsc::Store);
 
 pub struct RunInfo {
     pub digest: u64,
@@ -148,11 +156,36 @@ pub fn run(case: &C01Case) -> RunInfo {
                 Op::Tokenize(t) => hash_text(&mut h, &lsc::tokenize_query(t, &lang)),
             }
         }
-        lsc::destroy_store(sid);
+        if !case.variant {
+            lsc::destroy_store(sid);
+        }
     } else {
         let mut store = lsc::Store::new();
         store.lang = lang_of(case.lang);
-        for op in &case.ops {
+        let mut skip = 0usize;
+        if case.variant {
+            // the leading adds happen on a loader thread; the store is then handed to this one
+            let lead: Vec<Op> = case.ops.iter().take_while(|o| matches!(o, Op::Add { .. })).cloned().collect();
+            skip = lead.len();
+            let lang_code = case.lang;
+            let built = std::thread::spawn(move || {
+                let mut st = lsc::Store::new();
+                st.lang = lang_of(lang_code);
+                for op in &lead {
+                    if let Op::Add { id, title, rating } = op {
+                        let r = lsc::Record::new(*id, title, *rating, &st.lang);
+                        st.add(r);
+                    }
+                }
+                SendStore(st)
+            })
+            .join();
+            match built {
+                Ok(s) => store = s.0,
+                Err(_) => panic!("loader thread panicked"),
+            }
+        }
+        for op in case.ops.iter().skip(skip) {
             match op {
                 Op::Add { id, title, rating } => {
                     let r = lsc::Record::new(*id, title, *rating, &store.lang);
@@ -194,7 +227,7 @@ pub fn op_json(op: &Op) -> Value {
 
 impl Case for C01Case {
     fn describe(&self) -> Value {
-        json!({"lang": self.lang, "via_registry": self.via_registry, "ops": self.ops.iter().map(op_json).collect::<Vec<_>>()})
+        json!({"lang": self.lang, "via_registry": self.via_registry, "variant(no destroy / loader thread)": self.variant, "ops": self.ops.iter().map(op_json).collect::<Vec<_>>()})
     }
     fn key(&self) -> u64 {
         hash64(self)
@@ -226,6 +259,8 @@ impl Case for C01Case {
         ctx.label_if(self.ops.iter().any(|o| matches!(o, Op::Limit(n) if *n >= 32768)), "limit>=2^15");
         ctx.label_if(self.ops.iter().any(|o| matches!(o, Op::Limit(0))), "limit-0");
         ctx.label_if(self.via_registry, "via-registry");
+        ctx.label_if(self.via_registry && self.variant, "store-left-alive-at-thread-exit");
+        ctx.label_if(!self.via_registry && self.variant, "built-on-loader-thread");
         ctx.label_if(info.word_query_hits > 0, "word-query-with-hits");
         Ok(())
     }
